@@ -671,6 +671,13 @@ pub(crate) fn execute_external_command(
             .join(" ")
     );
 
+    #[cfg(feature = "verif-hooks")]
+    if let Some(child) =
+        crate::verif::sim_spawn(&context, executable_path, cmd_args.as_slice(), process_group_id)
+    {
+        return Ok(ExecutionSpawnResult::StartedProcess(child));
+    }
+
     match sys::process::spawn(cmd, context.shell.options().kill_external_commands_on_drop) {
         Ok(child) => {
             // Retrieve the pid.
